@@ -285,6 +285,8 @@ def _arith(op: ast.operator, a, b, node):
         return a * b
     if isinstance(a, (list, tuple)) and isinstance(op, ast.Add) and isinstance(b, type(a)):
         return a + b
+    if isinstance(a, (list, tuple)) and isinstance(op, ast.Mult) and isinstance(b, int) and not isinstance(b, bool):
+        return a * b
     if isinstance(a, bool):
         a = int(a)
     if isinstance(b, bool):
@@ -410,6 +412,8 @@ class Evaluator:
         self.strict_index = False           # negative indices into concrete lists are out-of-bounds (array semantics)
         self.attr_fallback = None           # callable(dotted) -> value | None for unknown dotted attribute reads
         self.opaque: Dict[str, ast.AST] = {}
+        self.cls_ctx = None                 # ClassInfo of the method being evaluated (for super())
+        self.self_name = None
         self.runtime = None                 # instances.Runtime: resolves package names / classes / functions
         self.module = None                  # loader.Module the evaluated code belongs to (for name resolution)
 
@@ -442,6 +446,8 @@ class Evaluator:
         child.while_bound = self.while_bound
         child.runtime = self.runtime
         child.module = getattr(fnode, "_csa_module", None) or self.module
+        child.cls_ctx = getattr(fnode, "_csa_cls", None)
+        child.self_name = names[0] if names else None
         body = list(fnode.body)
         if body and isinstance(body[0], ast.Expr) and isinstance(body[0].value, ast.Constant) \
                 and isinstance(body[0].value.value, str):
@@ -702,6 +708,12 @@ class Evaluator:
         args = None
         if name is not None and name in self.funcs:
             return self.funcs[name](self, n)
+        if isinstance(n.func, ast.Attribute) and isinstance(n.func.value, ast.Call) \
+                and isinstance(n.func.value.func, ast.Name) and n.func.value.func.id == "super" \
+                and self.runtime is not None and self.cls_ctx is not None:
+            me = self.env.get(self.self_name)
+            args, kw = self._call_args(n)
+            return self.runtime.super_call(self.cls_ctx, me, n.func.attr, args, kw, self, n)
         if isinstance(n.func, ast.Attribute):
             if name is not None and name in self.funcs:
                 return self.funcs[name](self, n)
